@@ -47,6 +47,7 @@ type RunSpec struct {
 	Replay      map[string][]uint32 `json:"replay,omitempty"`
 	NoPoison    bool                `json:"nopoison,omitempty"`
 	Trace       bool                `json:"trace,omitempty"`
+	Race        bool                `json:"race,omitempty"` // run by the -race build (driver only)
 	Record      bool                `json:"record,omitempty"`
 	WatchdogSec int                 `json:"watchdog_sec,omitempty"`
 	Case        int                 `json:"case"`
@@ -257,7 +258,11 @@ func runSpecEnv(bin string, spec RunSpec, idx int, gmp string) *RunResult {
 	// a runaway allocation in the process under test must not take the machine down:
 	// cap the address space (a breach ends the child with "out of memory", which is classified)
 	cmd := exec.Command("/bin/sh", "-c", "ulimit -v "+envOr("VSIM_ULIMIT_KB", "8000000")+"; exec \"$0\" \"$@\"", bin, "-test.run", "^TestSim$", "-test.timeout", "0")
-	cmd.Env = append(os.Environ(), "VSIM_SPEC="+sp, "VSIM_OUT="+op, "GOMAXPROCS="+gmp, "GOTRACEBACK=all")
+	if spec.Race {
+		// the race runtime reserves terabytes of address space: no cap for these runs
+		cmd = exec.Command(bin, "-test.run", "^TestSim$", "-test.timeout", "0")
+	}
+	cmd.Env = append(os.Environ(), "VSIM_SPEC="+sp, "VSIM_OUT="+op, "GOMAXPROCS="+gmp, "GOTRACEBACK=all", "GORACE=exitcode=0 history_size=3")
 	var stderr bytes.Buffer
 	cmd.Stderr = &stderr
 	cmd.Stdout = io.Discard
@@ -390,6 +395,13 @@ func violationsFor(prop string, r *RunResult, bin string, idx int) []Violation {
 			out = append(out, Violation{Prop: prop, Rule: "library-panic", Detail: fmt.Sprintf("a library goroutine panicked (this terminates the process) in a run of the workload for %s: %s\n%s", prop, p.Value, top)})
 		}
 	}
+	if r.spec.Race && prop == "C04" {
+		for _, rr := range parseRaces(r.stderr) {
+			if rr.lib {
+				out = append(out, Violation{Prop: "C04", Rule: "data-race", Detail: rr.text})
+			}
+		}
+	}
 	if r.crashed && prop == "C03" {
 		switch {
 		case strings.Contains(r.stderr, "out of memory") || strings.Contains(r.stderr, "cannot allocate memory"):
@@ -400,6 +412,70 @@ func violationsFor(prop string, r *RunResult, bin string, idx int) []Violation {
 	}
 	if r.hang && prop == "C03" {
 		out = append(out, Violation{Prop: "C03", Rule: "spin", Detail: "a goroutine never reached a scheduling point (real-time watchdog fired)\n" + firstLines(r.stderr, 40)})
+	}
+	return out
+}
+
+type raceReport struct {
+	text string
+	lib  bool   // both accesses are made by library code (not simrt, not the harness)
+	key  string // the two accessing library frames
+}
+
+// parseRaces splits the race detector's reports out of a child's stderr.
+func parseRaces(stderr string) []raceReport {
+	var out []raceReport
+	for _, blk := range strings.Split(stderr, "==================") {
+		if !strings.Contains(blk, "WARNING: DATA RACE") {
+			continue
+		}
+		// the two access stacks come first; "Goroutine N (...) created at:" sections follow
+		body := blk
+		if i := strings.Index(body, "\nGoroutine "); i >= 0 {
+			body = body[:i]
+		}
+		var tops []string
+		for _, sec := range strings.Split(body, "\n\n") {
+			lines := strings.Split(strings.TrimSpace(sec), "\n")
+			if len(lines) > 0 && strings.HasPrefix(lines[0], "WARNING: DATA RACE") {
+				lines = lines[1:]
+			}
+			if len(lines) < 2 || !(strings.Contains(lines[0], " at 0x") && strings.Contains(lines[0], "by ")) {
+				continue
+			}
+			top := ""
+			for i := 1; i+1 < len(lines); i += 2 {
+				fn := strings.TrimSpace(lines[i])
+				loc := strings.TrimSpace(lines[i+1])
+				if strings.HasPrefix(fn, "github.com/uber/tchannel-go") || strings.HasPrefix(fn, "vsim.") || strings.HasPrefix(fn, "vsim/") {
+					if j := strings.Index(loc, "/lib/"); j >= 0 {
+						loc = loc[j+5:]
+					}
+					if j := strings.Index(loc, " +0x"); j >= 0 {
+						loc = loc[:j]
+					}
+					top = fn + " " + loc
+					break
+				}
+			}
+			tops = append(tops, top)
+		}
+		rr := raceReport{text: strings.TrimSpace(blk)}
+		if len(rr.text) > 4000 {
+			rr.text = rr.text[:4000] + "..."
+		}
+		rr.lib = len(tops) >= 2
+		for _, t := range tops {
+			if !strings.HasPrefix(t, "github.com/uber/tchannel-go") || strings.Contains(t, "/simrt.") {
+				rr.lib = false
+			}
+		}
+		sort.Strings(tops)
+		rr.key = strings.Join(tops, " <-> ")
+		if rr.lib {
+			rr.text = "data race between " + rr.key + "\n" + rr.text
+		}
+		out = append(out, rr)
 	}
 	return out
 }
